@@ -1448,7 +1448,8 @@ class ModelResults:
 
         results = self._run_func(parameters=base_params)
 
-        self.outputs = np.array(results["outputs"])
+        # (a runner built with include_full_outputs=False returns the derived outputs only)
+        self.outputs = np.array(results["outputs"]) if "outputs" in results else None
         self.derived_outputs = {k: np.array(v) for k, v in results["derived_outputs"].items()}
         self.model.outputs = self.outputs
         self.model.derived_outputs = self.derived_outputs
